@@ -1104,7 +1104,7 @@ impl Prop for C13P {
         "C13"
     }
     fn rule(&self) -> String {
-        "module trees (depth <= 3, <= 3 children per module, module names from {a,b,pkgs}) whose modules declare functions {f,g,pkg_h} and constants {K,L} from shared name pools with unique tags, module-level imports (also chains of imports that go through each other's aliases, in random order), and 1-4 probe functions each containing one reference: bare name, relative path, absolute pkg path, 1-3 leading supers, import of an item or of a whole module inside the function body or a nested block (before or after the use), local let shadowing a constant; the tree is compiled from FileSpec in memory and from a temp directory (pkg.roto, name.roto, name/mod.roto, plus stray files that are not modules: no extension, other extensions). Oracle: an independent resolver implementing the stated lookup rules predicts the tag each probe returns, or that compilation fails with a type error; both layouts agree; every declared function is retrievable by get_function(\"<module path>.<fn>\"). Non-trivial: the referenced name exists in >= 2 modules, or the path uses super, or resolution goes through an import, or the reference is unreachable; distinct by tree text".into()
+        "module trees (depth <= 3, <= 3 children per module, module names from {a,b,pkgs}) whose modules declare functions {f,g,pkg_h} and constants {K,L} from shared name pools with unique tags, module-level imports (also chains of imports that go through each other's aliases, in random order), and 1-4 probe functions each containing one reference: bare name, relative path, absolute pkg path, 1-3 leading supers, import of an item or of a whole module inside the function body or a nested block (before or after the use), local let shadowing a constant; imports of one scope written as statements, nested lists, one top-level list or leaf-wise lists, two imports of one block going through each other's alias in either order, bundles of imports by absolute path, filtermap items, an `enum Color` in some modules with paths that go through it; the tree is compiled from FileSpec in memory and from a temp directory (pkg.roto, name.roto, name/mod.roto, plus stray files that are not modules: no extension, other extensions, and plain sub-directories without mod.roto). Oracle: an independent resolver implementing the stated lookup rules predicts the tag each probe returns, or that compilation fails with a type error; both layouts agree; every declared function is retrievable by get_function(\"<module path>.<fn>\"). Non-trivial: the referenced name exists in >= 2 modules, or the path uses super, or resolution goes through an import, or the reference is unreachable; distinct by tree text".into()
     }
     fn assumptions(&self) -> Vec<String> {
         vec!["tree size bounded as stated; import aliases are distinct within a scope".into(), "locals only use constant names, so a local never shadows a module or function".into()]
